@@ -24,9 +24,11 @@ def harnesses():
                      fns=["overflowing_shr", "wrapping_shr", "checked_shr", "arithmetic_shr"],
                      covers_required=(["loses-bits"] if b > 0 else [])
                      + (["whole-limb-shift-exact"] if b > 64 else [])))
-        out.append(H("c05_rot_%d" % b, "C05", "c05::rot::<%d,%d,0>" % (b, l), unwind=un, tier=tier, inst=inst,
+        # rotations also at 192 bits in the quick tier: the smallest width with three whole limbs
+        out.append(H("c05_rot_%d" % b, "C05", "c05::rot::<%d,%d,0>" % (b, l), unwind=un,
+                     tier="quick" if b == 192 else tier, inst=inst,
                      domain="FULL value x amount in 0..=65535 (covers [0, BITS+64*LIMBS+1]) x symbolic bit position",
-                     free_bits=b + 16 + 8, fns=["rotate_left", "rotate_right"], timeout=600))
+                     free_bits=b + 16 + 8, fns=["rotate_left", "rotate_right"], timeout=900))
         if b <= 65:
             out.append(H("c05_rot_anyusize_%d" % b, "C05", "c05::rot::<%d,%d,1>" % (b, l), unwind=un,
                          tier="thorough", inst=inst, domain=dom, free_bits=b + 64 + 8,
